@@ -23,12 +23,23 @@ def one(d):
             res.append((j["check"], j.get("exit") == 1 and bool(j.get("violation_lines")), j.get("sigs"), [b[0] if isinstance(b, list) else str(b)[:40] for b in j.get("broken", [])]))
         elif "error" in j:
             res.append(("?", False, [j["error"]], []))
+    # record the re-evaluation in the change's meta.json (the first evaluation stays under "checks")
+    try:
+        mp = os.path.join(d, "meta.json")
+        meta = json.load(open(mp))
+        head = subprocess.run(["git", "-C", V, "log", "--format=%h", "-1"], stdout=subprocess.PIPE, text=True).stdout.strip()
+        meta["latest_evaluation"] = {"verif_commit": head,
+                                     "repo_commit": subprocess.run(["git", "-C", "/repo", "log", "--format=%h", "-1"], stdout=subprocess.PIPE, text=True).stdout.strip(),
+                                     "results": [{"check": c, "detected": det, "monitor_sigs": sigs, "broken_obligations": br} for (c, det, sigs, br) in res]}
+        json.dump(meta, open(mp, "w"), indent=1)
+    except Exception as e:
+        print(f"{sid}: meta.json not updated: {e}", flush=True)
     return sid, res
 dirs = sorted(d for d in glob.glob(os.path.join(V, "seeded", "C*")) if os.path.isdir(d))
 if len(sys.argv) > 1:
     dirs = [d for d in dirs if os.path.basename(d) in sys.argv[1:] or os.path.basename(d)[:3] in sys.argv[1:]]
 bad = 0
-with cf.ThreadPoolExecutor(4) as ex:
+with cf.ThreadPoolExecutor(int(os.environ.get('SEED_PAR', '4'))) as ex:
     for sid, res in ex.map(one, dirs):
         for (c, det, sigs, br) in res:
             print(f"{sid} {c} detected={det} monitors={sigs} broken={br}", flush=True)
